@@ -629,10 +629,10 @@ theorem isRow_of_rowOf (e r : XRef) (h : rowOf e = some r) : IsRow r := by
 
 /-- every row of a successful save is a free, in-use or compressed entry whose fields fit the widths -/
 theorem rows_fit (P : Params (Prim R)) (L : Layout) (hL : L.Pos) (d0 d d' : Doc (Prim R)) (chain0) (i : SaveInfo)
-    (hb : BaseOK d0 chain0) (hi : Inv d0 d) (h : save P L d = (d', .ok i)) :
+    (hb : BaseOK d0 chain0) (hi : Inv d0 d) (h : Committed P L d d'.st i) :
     (∀ r ∈ i.rows, IsRow r) ∧ (∀ r ∈ i.rows, Xref.Fits 1 i.aw i.bw r) := by
-  have sh := save_shape P L hL d0 d d' chain0 i hb hi h
-  obtain ⟨_, _, hw⟩ := width_fits P L hL d0 d d' chain0 i hb hi h
+  have sh := save_shape_c P L hL d0 d d' chain0 i hb hi h
+  obtain ⟨_, _, hw⟩ := width_fits_c P L hL d0 d d' chain0 i hb hi h
   have hrow : ∀ r ∈ i.rows, IsRow r := by
     intro r hr
     obtain ⟨j, hj⟩ := List.getElem?_of_mem hr
@@ -648,21 +648,22 @@ theorem rows_fit (P : Params (Prim R)) (L : Layout) (hL : L.Pos) (d0 d d' : Doc 
 theorem fmtNat_zero : fmtNat 0 = [48] := by decide
 
 /-- **`saveB` keeps the bytes a representation of the abstract state**: every record and the new section are
-    read back by the byte-level parsers at the offsets the abstract model says -/
+    read back by the byte-level parsers at the offsets the abstract model says — as soon as the revision was written,
+    whether the save then succeeds or fails in the typed reload of the trailer -/
 theorem rep_saveB (fmt : R → List UInt8) (env : Env R) (hd : env.decrypt = none) (pfuel : Nat)
     (dec : Dict R → List UInt8 → Out (List UInt8)) (hdec : NoFilter dec) (d0 : Doc (Prim R)) (chain0)
     (b b' : BDoc R) (i : SaveInfo) (hb : BaseOK d0 chain0) (hi : Inv d0 b.doc)
-    (hrep : Rep (parsers env pfuel dec) b.bytes b.doc.st) (h : saveB fmt b = (b', .ok i))
+    (hrep : Rep (parsers env pfuel dec) b.bytes b.doc.st) (typed : Bool) (h : CommittedB fmt typed b b' i)
     (hbd : Bounds b.doc.tr (prep b.doc).infoRef i)
     (hvals : ∀ c ∈ (prep b.doc).st2.changes, OKVal fmt env.parseReal c.2.1 ∧ c.1 ≤ 18446744073709551615 ∧
       c.2.2 ≤ 18446744073709551615)
     (hsmall : b'.bytes.length ≤ fileMax) (hpf : 3 * b'.bytes.length ≤ pfuel) :
     Rep (parsers env pfuel dec) b'.bytes b'.doc.st := by
   have hlen := hrep.len
-  have sb := saveB_spec fmt env.parseReal d0 chain0 b b' i hb hi hlen h hbd
-  have bk := saveB_backend fmt d0 chain0 b b' i hb hi hlen h
-  have sh := save_shape _ _ (layoutOf_pos fmt b) d0 b.doc b'.doc chain0 i hb hi sb.doc
-  obtain ⟨hrows, hfits⟩ := rows_fit _ _ (layoutOf_pos fmt b) d0 b.doc b'.doc chain0 i hb hi sb.doc
+  have sb := saveB_spec fmt env.parseReal d0 chain0 b b' i hb hi hlen typed h hbd
+  have bk := saveB_backend fmt d0 chain0 b b' i hb hi hlen typed h
+  have sh := save_shape_c _ _ (layoutOf_pos fmt typed b) d0 b.doc b'.doc chain0 i hb hi sb.doc
+  obtain ⟨hrows, hfits⟩ := rows_fit _ _ (layoutOf_pos fmt typed b) d0 b.doc b'.doc chain0 i hb hi sb.doc
   have hxid : i.xid ≤ 18446744073709551615 := by have := sh.rows_len.2; have := hbd.size; omega
   have hf := xrefDict_facts fmt env.parseReal b.doc.tr (prep b.doc).infoRef b.ids i hbd
   obtain ⟨body, hbody, hxdrop⟩ := sb.xbody
